@@ -376,17 +376,26 @@ def mac_events(rng, tier):
 
     for U in range(1, 6 if tier == "thorough" else 5):
         for joint in (True, False):
-            for rep in range(3):
+            patterns = [list(range(1, U + 1))]                      # one encoder per user
+            if U >= 2:
+                patterns.append([1] * U)                            # one encoder instance shared by every user
+            if U >= 3:
+                patterns += [[1, 1] + list(range(2, U)), list(range(1, U)) + [U - 1]]    # partially shared lists
+            for pat in patterns:
                 calls, enc_out, box = [], [], []
-                encs = [Enc(i, calls, enc_out) for i in range(1, U + 1)]
+                pool = {i: Enc(i, calls, enc_out) for i in set(pat)}
+                encs = [pool[i] for i in pat]
                 decs = [Dec(1, calls)] if joint else [Dec(i, calls) for i in range(1, U + 1)]
                 if U == 1 and not joint:
                     continue
-                m = MultipleAccessChannelModel(encoders=encs, decoders=decs, channel=Ch(calls), power_constraint=Con(calls, box), num_devices=U)
-                xs = [torch.tensor([[float(rng.randrange(-5, 6)) for _ in range(3)] for _ in range(2)]) for _ in range(U)]
-                m(xs)
+                try:
+                    m = MultipleAccessChannelModel(encoders=encs, decoders=decs, channel=Ch(calls), power_constraint=Con(calls, box), num_devices=U)
+                    xs = [torch.tensor([[float(rng.randrange(-5, 6)) for _ in range(3)] for _ in range(2)]) for _ in range(U)]
+                    m(xs)
+                except Exception as ex:
+                    calls = [["raised", 0]]
                 tid += 1
-                evs.append({"ev": "MacRun", "tid": tid, "U": U, "D": 1 if joint else U, "calls": calls, "encoded": enc_out,
+                evs.append({"ev": "MacRun", "tid": tid, "encs": pat, "D": 1 if joint else U, "calls": calls, "encoded": enc_out if enc_out else [[0]],
                             "constraint_in": box[0] if box else []})
     return evs
 
